@@ -195,6 +195,20 @@ func zzvC03Scenario(base string, scn *zzvScn) *sched.Scenario {
 					if per[name] < scn.presetTo {
 						v = append(v, fmt.Sprintf("saturation: persisted value wrapped (%d < preset %d)", per[name], scn.presetTo))
 					}
+					// Values stick at the limits instead of wrapping: whatever the interleaving, what is
+					// recorded in the end cannot be less than the smaller of the amount begun and the
+					// lowest limit (2^33-1 pending); the sum is computed without wrapping.
+					floor := b
+					if floor > 1<<33-1 {
+						floor = 1<<33 - 1
+					}
+					total := per[name] + pend[name]
+					if total < per[name] {
+						total = ^uint64(0)
+					}
+					if clean && total < floor {
+						v = append(v, fmt.Sprintf("saturation: recorded %d (persisted %d + pending %d) although %d were begun: a value wrapped instead of sticking %s", total, per[name], pend[name], b, desc(name)))
+					}
 					continue
 				}
 				if clean && per[name]+pend[name] != b {
